@@ -846,17 +846,116 @@ func linkCase(variant int) job {
 	}
 }
 
+
+// linkOrder: several pools attached in one batch (optionally naming a link twice), a detach from
+// the front / middle / end, then reads that drain the remaining pools only partially: the per-pool
+// balances show whether attachment order survived and whether every pool is counted once.
+func linkOrder(variant int) job {
+	return func(w *worker) {
+		ids := w.fresh(6)
+		a, b := ids[0], ids[1]
+		pools := ids[2:6]
+		k := w.begin(fmt.Sprintf("linkorder-%d", variant), []int{a, b}, pools)
+		prices := rhpx.DefaultPrices()
+		c := readCost(prices, 64)
+		half := c.Div64(2)
+		dupBatch := variant >= 8
+		// pool i holds a little more than half a read (distinct amounts), or 3/4 of a read in the
+		// duplicate-link variants (so that one pool alone never pays for a read, twice it would)
+		for i, p := range pools {
+			amt := half.Add(cur(uint64(i + 1)))
+			if dupBatch {
+				amt = c.Mul64(3).Div64(4).Add(cur(uint64(i)))
+			}
+			k.replenish(rhpx.ReplArgs{Pool: true, Accounts: []int{p}, Target: amt, Chal: rhpx.Honest, Second: rhpx.Honest})
+		}
+		link := func(acct, p int) rhpx.LinkSpec {
+			return rhpx.LinkSpec{Account: acct, Pool: p, Delta: 3600, Sig: rhpx.PS{Kind: "s", Key: p}}
+		}
+		tok := k.w.s.GoodToken(a)
+		read := func(length uint64) {
+			k.service("read", func() rhpx.Result {
+				return k.w.s.Read(rhpx.ReadArgs{Prices: good(k.w.s), Token: tok, Root: 1, Offset: 0, Len: length})
+			}, true, a, readCost(prices, length))
+			k.observe()
+		}
+		name := ""
+		if !dupBatch {
+			// four pools in one batch, in order
+			k.attach([]rhpx.LinkSpec{link(a, pools[0]), link(a, pools[1]), link(a, pools[2]), link(a, pools[3])}, true)
+			k.observe()
+			di := variant % 4 // which link is detached: front, middle, middle, end
+			signer := a
+			if variant >= 4 {
+				signer = pools[di]
+			}
+			name = fmt.Sprintf("detach-%d-signer-%v", di, variant >= 4)
+			k.detach([]rhpx.LinkSpec{{Account: a, Pool: pools[di], Delta: 3600, Sig: rhpx.PS{Kind: "s", Key: signer}}}, true)
+			k.observe()
+			read(64) // drains the first remaining pool and part of the second
+			read(64) // the rest of the second and part of the third
+			read(64) // nothing left that covers a read: refused
+			// re-attach at the end and drain again
+			k.attach([]rhpx.LinkSpec{link(a, pools[di])}, true)
+			read(64)
+		} else {
+			var batch []rhpx.LinkSpec
+			switch variant {
+			case 8:
+				batch, name = []rhpx.LinkSpec{link(a, pools[0]), link(a, pools[0])}, "same-link-twice"
+			case 9:
+				batch, name = []rhpx.LinkSpec{link(a, pools[0]), link(b, pools[0]), link(a, pools[0])}, "same-link-twice-apart"
+			case 10:
+				batch, name = []rhpx.LinkSpec{link(a, pools[0]), link(a, pools[0]), link(a, pools[0])}, "same-link-thrice"
+			case 11:
+				k.attach([]rhpx.LinkSpec{link(a, pools[0])}, true)
+				batch, name = []rhpx.LinkSpec{link(a, pools[1]), link(a, pools[0]), link(a, pools[1])}, "second-batch-with-old-and-doubled-new"
+			}
+			k.attach(batch, true)
+			k.observe()
+			if variant != 11 {
+				read(64) // costs more than the one pool holds, less than twice it: must be refused
+			} else {
+				read(64)  // two pools of 3/4 each: served, first pool emptied, second at 1/2
+				read(128) // same price class; 1/2 left: refused
+			}
+			// one detach must cut the account off that pool entirely
+			k.detach([]rhpx.LinkSpec{{Account: a, Pool: pools[0], Delta: 3600, Sig: rhpx.PS{Kind: "s", Key: a}}}, true)
+			k.observe()
+			read(64)
+			// the other account of variant 9 is attached once
+			if variant == 9 {
+				k.service("read", func() rhpx.Result {
+					return k.w.s.Read(rhpx.ReadArgs{Prices: good(k.w.s), Token: k.w.s.GoodToken(b), Root: 1, Offset: 0, Len: 64})
+				}, true, b, c)
+			}
+		}
+		k.c.Name += "-" + name
+		k.done(true, "kind:linkorder", "variant:"+name)
+	}
+}
+
 // history: a random sequence over a small universe of accounts and pools.
 func history(idx int, rng *vh.RNG, steps int) job {
 	return func(w *worker) {
-		ids := w.fresh(6)
+		ids := w.fresh(7)
 		accts, pools := ids[:3], ids[3:]
 		k := w.begin(fmt.Sprintf("hist%d", idx), accts, pools)
 		prices := rhpx.DefaultPrices()
 		rc := readCost(prices, 64)
 		for step := 0; step < steps; step++ {
 			a := accts[rng.Intn(len(accts))]
-			switch rng.Intn(12) {
+			switch rng.Intn(14) {
+			case 12:
+				fallthrough
+			case 13: // attach and detach are what the order of pools depends on: twice as likely
+				if rng.Bool() {
+					p := pools[rng.Intn(len(pools))]
+					k.attach([]rhpx.LinkSpec{{Account: a, Pool: p, Delta: 3600, Sig: rhpx.PS{Kind: "s", Key: p}}}, k.led.poolSeen[p])
+				} else if att := k.led.att[a]; len(att) > 0 {
+					p := att[rng.Intn(len(att))] // an attached pool, often not the last one
+					k.detach([]rhpx.LinkSpec{{Account: a, Pool: p, Delta: 3600, Sig: rhpx.PS{Kind: "s", Key: a}}}, true)
+				}
 			case 0, 1: // fund around the read cost
 				amt := rc.Mul64(uint64(rng.Intn(3))).Add(cur(uint64(rng.Intn(3))))
 				if amt.IsZero() {
@@ -892,14 +991,25 @@ func history(idx int, rng *vh.RNG, steps int) job {
 					l = append(l, pools[rng.Intn(len(pools))])
 				}
 				k.replenish(rhpx.ReplArgs{Pool: true, Accounts: l, Target: rc.Mul64(uint64(1+rng.Intn(2))).Add(cur(uint64(rng.Intn(2)))), Chal: rhpx.Honest, Second: rhpx.Honest})
-			case 4: // attach
-				p := pools[rng.Intn(len(pools))]
-				l := rhpx.LinkSpec{Account: a, Pool: p, Delta: 3600, Sig: rhpx.PS{Kind: "s", Key: p}}
-				valid := k.led.poolSeen[p]
-				if rng.Chance(1, 5) {
-					l.Sig, valid = rhpx.PS{Kind: "s", Key: a}, false
+			case 4: // attach a batch of 1-3 links; the same link may occur twice in it
+				n := 1 + rng.Intn(3)
+				var batch []rhpx.LinkSpec
+				valid := true
+				for i := 0; i < n; i++ {
+					p := pools[rng.Intn(len(pools))]
+					if i > 0 && rng.Chance(1, 3) {
+						p = batch[rng.Intn(len(batch))].Pool
+					}
+					l := rhpx.LinkSpec{Account: a, Pool: p, Delta: 3600, Sig: rhpx.PS{Kind: "s", Key: p}}
+					if !k.led.poolSeen[p] {
+						valid = false
+					}
+					if rng.Chance(1, 8) {
+						l.Sig, valid = rhpx.PS{Kind: "s", Key: a}, false
+					}
+					batch = append(batch, l)
 				}
-				k.attach([]rhpx.LinkSpec{l}, valid)
+				k.attach(batch, valid)
 			case 5: // detach
 				p := pools[rng.Intn(len(pools))]
 				signer := a
@@ -949,7 +1059,7 @@ func Run(r *vh.Run) {
 		jobs = append(jobs, replenishCase(false, v), replenishCase(true, v))
 	}
 	for v := 0; v <= 11; v++ {
-		jobs = append(jobs, fundCase(v), linkCase(v))
+		jobs = append(jobs, fundCase(v), linkCase(v), linkOrder(v))
 	}
 	nh := r.Pick(1500, 20000)
 	steps := r.Pick(30, 60)
